@@ -32,6 +32,8 @@ TARGETS = [
     dict(name="tbc_decrypt", file="src/tbc_header/decrypt.rs", fn="decrypt", kind="slice_loop"),
     dict(name="rc4_prga", file="src/rc4.rs", fn="pseudo_random_generation", kind="method",
          fields=[("state", ("arr", "u8")), ("i", "u8"), ("j", "u8")], helpers=["s_i", "s_j"], ret="u8"),
+    dict(name="skey_as_equal_slice", file="src/key.rs", fn="as_equal_slice", kind="method",
+         fields=[("key", ("arr", "u8"))], helpers=[], ret=("arr", "u8"), readonly=True),
 ]
 
 def tuple_of(names):
@@ -103,15 +105,22 @@ def method(t, src):
         env["self." + f] = ("s_" + f, ty)
     g = Gen(env, CONSTS, helpers)
     blk = Parser(tokenize(body)).block()
+    g.usize_vars = usize_variables(blk)
     fields = ["s_" + f for f, _ in t["fields"]]
+    ro = t.get("readonly", False)
     def final(tail):
-        st = "(" + ", ".join(fields) + ")"
+        st = "(" + ", ".join(fields) + ")" if len(fields) > 1 else fields[0]
+        if ro:
+            if tail is None: raise Untranslatable("read-only method without a result")
+            return "Some %s" % tail[0]
         if tail is None: return "Some (%s, tt)" % st
         return "Some (%s, %s)" % (st, tail[0])
     text = g.stmts(blk, final)
     tys = " ".join("(%s : %s)" % ("s_" + f, "list N" if isinstance(ty, tuple) else "N") for f, ty in t["fields"])
     sty = "(" + " * ".join("list N" if isinstance(ty, tuple) else "N" for _, ty in t["fields"]) + ")"
-    head = "Definition tr_%s %s %s: option (%s * %s) :=\n  %s." % (t["name"], tys, "".join("(%s : N) " % a for a in args), sty, "N" if t.get("ret") else "unit", text)
+    rty = "list N" if isinstance(t.get("ret"), tuple) else ("N" if t.get("ret") else "unit")
+    fuel = "(fuel : nat) " if g.uses_fuel else ""
+    head = "Definition tr_%s %s%s %s: option %s :=\n  %s." % (t["name"], fuel, tys, "".join("(%s : N) " % a for a in args), ("(%s)" % rty) if ro else "(%s * %s)" % (sty, rty), text)
     note = "(* %s fn %s(&mut self%s); fields %s; helpers inlined: %s *)" % (t["file"], t["fn"], "".join(", " + a for a in args), " ".join(fields), " ".join(helpers) or "-")
     return note + "\n" + head
 
